@@ -1,0 +1,7 @@
+//go:build !verif
+
+package props
+
+import "github.com/Syuparn/pangaea/object"
+
+func verifAlloc(size, count int64) *object.PanErr { return nil }
